@@ -1,7 +1,8 @@
 (* C12, Scala: the alias block `type UByte = Byte ...` is written iff unsigned_integer_used (a scan
-   of the program made BEFORE printing, one level deep); the declarations spell an unsigned alias
-   wherever an unsigned integer occurs at any depth.  Outside the class C12-scala-unsigned-depth
-   (spelled somewhere, seen nowhere by the scan) every alias used is defined. *)
+   of the program made BEFORE printing - recursive since the /repo fix of C12-scala-unsigned-depth);
+   the declarations spell an unsigned alias wherever an unsigned integer occurs at any depth in a
+   printed position, which the recursive scan always sees: every alias used is defined, for every
+   program (no recorded class left). *)
 From Coq Require Import List Bool Permutation.
 From TS Require Import Model.Str Model.Outcome Model.Unicode Model.Types Model.Parse
                        Model.Lang.Common Model.Lang.Decl Model.Lang.Scala Spec.C12Spec.
@@ -25,41 +26,68 @@ Proof. induction l as [|x l IH]; cbn [flat_map map app]; [reflexivity|]. rewrite
 Lemma c12_sc_is_unsigned t : sc_is_unsigned t = match t with RPrim p => c12_is_unsigned p | _ => false end.
 Proof. destruct t as [| | | | | | |p]; try reflexivity; destruct p; reflexivity. Qed.
 
-Lemma c12_sc_shallow_spec t :
-  c12_sc_shallow_unsigned t =
-  existsb sc_is_unsigned (match t with
-                          | RGeneric _ ps => ps
-                          | ROption x | RVec x => [x]
-                          | RHashMap k v => [k; v]
-                          | RArray _ _ | RSlice _ | RPrim _ => [t]
-                          | RSimple _ => []
-                          end).
+Lemma c12_existsb_ext_in {A} (p q : A -> bool) l : Forall (fun x => p x = q x) l -> existsb p l = existsb q l.
+Proof. induction 1 as [|x l Hx _ IH]; cbn [existsb]; [reflexivity|]. now rewrite Hx, IH. Qed.
+
+(* the recursive scan of the spec is contains_unsigned_integer of the code *)
+Lemma c12_sc_deep_is_model t : c12_sc_deep_unsigned t = sc_contains_unsigned t.
 Proof.
-  destruct t as [id|id ps|x|x n|x|k v|x|p]; cbn [c12_sc_shallow_unsigned existsb]; rewrite ?c12_sc_is_unsigned, ?orb_false_r; try reflexivity.
-  all: try (apply c12_existsb_ext; intros a; now rewrite c12_sc_is_unsigned).
-  all: try (destruct x; reflexivity).
+  induction t as [id|id ps IH|t IH|t n IH|t IH|k v IHk IHv|t IH|p] using rtype_ind';
+    cbn [c12_sc_deep_unsigned sc_contains_unsigned]; try assumption; try reflexivity.
+  - apply c12_existsb_ext_in. exact IH.
+  - now rewrite IHk, IHv.
 Qed.
-
-Definition c12_sc_sub (t : rtype) : list rtype :=
-  match t with
-  | RGeneric _ ps => ps
-  | ROption x | RVec x => [x]
-  | RHashMap k v => [k; v]
-  | RArray _ _ | RSlice _ | RPrim _ => [t]
-  | RSimple _ => []
-  end.
-
-Lemma c12_sc_scan_list l : existsb c12_sc_shallow_unsigned l = existsb sc_is_unsigned (flat_map c12_sc_sub l).
-Proof. rewrite c12_existsb_flat_map. apply c12_existsb_ext. intros t. apply c12_sc_shallow_spec. Qed.
 
 Lemma c12_sc_scan_is_model pd : c12_sc_scan pd = sc_unsigned_integer_used pd.
 Proof.
   unfold c12_sc_scan, sc_unsigned_integer_used, c12_sc_items.
-  rewrite c12_sc_scan_list. fold c12_sc_sub. f_equal. f_equal.
+  rewrite (c12_existsb_ext _ _ _ c12_sc_deep_is_model). f_equal.
   rewrite !flat_map_app, !c12_flat_map_map. cbn [c12_item_types]. rewrite c12_flat_map_singleton.
   f_equal. f_equal.
   all: try (apply flat_map_ext; intros e; apply flat_map_ext; intros v; destruct v; reflexivity).
   induction (p_structs pd) as [|s l IH]; cbn [flat_map map]; [reflexivity|]. rewrite map_app, IH. reflexivity.
+Qed.
+
+(* whatever the translation spells, the recursive scan sees (the converse fails: a mapped generic type
+   or an overridden field hides its unsigned integers from the output, not from the scan) *)
+Lemma c12_sc_spells_deep tm t : c12_sc_spells_unsigned tm t = true -> c12_sc_deep_unsigned t = true.
+Proof.
+  induction t as [id|id ps IH|t IH|t n IH|t IH|k v IHk IHv|t IH|p] using rtype_ind';
+    cbn [c12_sc_spells_unsigned c12_sc_deep_unsigned]; try assumption; try (intros H; exact H).
+  - destruct (tmap_get tm id); [discriminate|]. intros H. apply existsb_exists in H as (x & Hx & H).
+    apply existsb_exists. exists x. split; [exact Hx|]. rewrite Forall_forall in IH. now apply IH.
+  - intros H. apply orb_true_iff in H as [H|H]; apply orb_true_iff; [left; now apply IHk|right; now apply IHv].
+Qed.
+
+Lemma c12_sc_field_spells_deep tm f : c12_sc_field_spells tm f = true -> c12_sc_deep_unsigned (fty f) = true.
+Proof. unfold c12_sc_field_spells. destruct (type_override f Scala); [discriminate|apply c12_sc_spells_deep]. Qed.
+
+Lemma c12_sc_fields_spells_deep tm fs :
+  existsb (c12_sc_field_spells tm) fs = true -> existsb c12_sc_deep_unsigned (map fty fs) = true.
+Proof.
+  intros H. apply existsb_exists in H as (f & Hf & H). apply existsb_exists. exists (fty f).
+  split; [now apply in_map|now apply (c12_sc_field_spells_deep tm)].
+Qed.
+
+Lemma c12_sc_item_spells_deep tm it :
+  c12_sc_item_spells tm it = true -> existsb c12_sc_deep_unsigned (c12_item_types it) = true.
+Proof.
+  destruct it as [rs|e|a|c]; cbn [c12_sc_item_spells c12_item_types]; intros H.
+  - now apply (c12_sc_fields_spells_deep tm).
+  - rewrite c12_existsb_flat_map. apply existsb_exists in H as (v & Hv & H). apply existsb_exists. exists v.
+    split; [exact Hv|]. destruct v as [vsh|t vsh|fs vsh]; cbn [c12_variant_types]; [discriminate| |].
+    + destruct e; [discriminate|]. cbn [existsb]. now rewrite (c12_sc_spells_deep tm t H).
+    + now apply (c12_sc_fields_spells_deep tm).
+  - cbn [existsb]. now rewrite (c12_sc_spells_deep tm _ H).
+  - discriminate.
+Qed.
+
+Lemma c12_sc_items_spells_scan tm pd :
+  existsb (c12_sc_item_spells tm) (c12_sc_items pd) = true -> c12_sc_scan pd = true.
+Proof.
+  intros H. unfold c12_sc_scan. rewrite c12_existsb_flat_map.
+  apply existsb_exists in H as (it & Hit & H). apply existsb_exists. exists it.
+  split; [exact Hit|now apply (c12_sc_item_spells_deep tm)].
 Qed.
 
 Section SC.
@@ -212,13 +240,13 @@ Proof.
   - destruct Hd.
 Qed.
 
-(* the file: outside the class, every unsigned alias the declarations spell is defined by the alias
-   block at the head of the package object *)
+(* the file: every unsigned alias the declarations spell is defined by the alias block at the head
+   of the package object - for every program (no carve-out since the /repo fix) *)
 Theorem c12_sc_file pd objs pkgs :
-  sc_decls uc cfg pd = Ok (objs, pkgs) -> c12_sc_dom pd = true -> c12_sc_known cfg pd = None ->
+  sc_decls uc cfg pd = Ok (objs, pkgs) -> c12_sc_dom pd = true ->
   c12_good (c12_sc_uses (objs ++ pkgs)) (c12_sc_defs (objs ++ pkgs)) = true.
 Proof.
-  intros H Hdom Hk. unfold sc_decls in H.
+  intros H Hdom. unfold sc_decls in H.
   apply c12_bind_ok in H as (hd & _ & H).
   apply c12_bind_ok in H as (aliases & Ea & H). apply c12_bind_ok in Ea as (dssa & Ea & Ea'). injection Ea' as <-.
   apply c12_bind_ok in H as (structs & Es & H). apply c12_bind_ok in Es as (dsss & Es & Es'). injection Es' as <-.
@@ -236,14 +264,13 @@ Proof.
     - rewrite (c12_sc_items_spells _ _ _ _ Hia Ea Hd Hu). reflexivity.
     - rewrite (c12_sc_items_spells _ _ _ _ His Es Hd Hu). now rewrite orb_true_r.
     - rewrite (c12_sc_items_spells _ _ _ _ Hie Ee Hd Hu). now rewrite !orb_true_r. }
-  unfold c12_sc_known in Hk. fold tm in Hk. rewrite Hsp in Hk. cbn [andb] in Hk.
-  destruct (c12_sc_scan pd) eqn:Escan; [|discriminate Hk].
+  pose proof (c12_sc_items_spells_scan tm pd Hsp) as Escan.
   rewrite c12_sc_scan_is_model in Escan. rewrite Escan.
   unfold c12_sc_defs. rewrite !flat_map_app. apply in_app_iff. left. apply in_app_iff. left. exact Hvoc.
 Qed.
 End SC.
 
-(* ---- the class is inhabited: Vec<Vec<u16>> in an alias ---- *)
+(* ---- the witness of the fixed class C12-scala-unsigned-depth: Vec<Vec<u16>> in an alias ---- *)
 Definition c12_sc_cfg0 : sc_config :=
   {| sc_package := lit "com.p"; sc_module_name := []; sc_type_mappings := []; sc_no_version_header := true; sc_version := [] |}.
 Definition c12_mkid (s : str) : id := {| original := s; renamed := s; via_serde_rename := false |}.
